@@ -11,5 +11,6 @@ def run(tier, seed):
     import livetls
     livetls.run_whole_responses(res, tier, "C01")
     livetls.run_unrouted_paths(res, tier, "C01")
-    res.rule += " | live: start_server on both TLS backends, 5 MiB (thorough 12 MiB) static file read after a 1 s delay, a small file and a 51"
+    livetls.run_config_matrix(res, tier, "C01", seed)
+    res.rule += " | live: start_server on both TLS backends, 5 MiB (thorough 12 MiB) static file read after a 1 s delay, a small file and a 51; `serve` under generated configurations (TOML sections, flags, environment; log levels, IP hashing, json logs, size limit, policies) with a fixed request battery"
     return res
